@@ -292,7 +292,7 @@ def _oracle_child(case_cat, defines, query):
     if kind == "call":
         inst, out = do_new(env, query[1], query[2])
         if inst is None:
-            return {"exc": "no-instance"}
+            return {"skip": "no-handle"}   # same sentinel as the run child: the constructor itself raised
         return call_method(env, inst, query[3])
     if kind == "characterize":
         return do_characterize(env, query[1], query[2])
